@@ -151,3 +151,76 @@ def merge_sub(rep, sub, rid, text):
         rep.findings.append(f)
     rep.unknowns += ["%s: %s" % (rid, u) for u in sub.unknowns]
     rep.functions_analysed |= sub.functions_analysed
+
+
+def ceval(fn, op, env, depth=0):
+    """concrete value of operand `op` given concrete values for some instructions / parameters (env: {inst id or ('a', n): value});
+    None if the value is not a pure function of them (through and/or/xor/shifts/add/sub/udiv/trunc/zext/icmp/select)"""
+    M64 = (1 << 64) - 1
+    if op[0] == "c":
+        return op[1] & M64
+    if op[0] == "n":
+        return 0
+    if op[0] == "a":
+        return env.get(("a", op[1]))
+    if op[0] != "i" or depth > 10:
+        return None
+    if op[1] in env:
+        return env[op[1]]
+    i = fn.insts[op[1]]
+    bits = {"i1": 1, "i8": 8, "i16": 16, "i32": 32, "i64": 64}
+    if i.op in ("trunc", "zext"):
+        v = ceval(fn, i.ops[0], env, depth + 1)
+        if v is None:
+            return None
+        return v & ((1 << bits.get(i.d.get("ty"), 64)) - 1)
+    if i.op in ("and", "or", "xor", "lshr", "shl", "udiv", "add", "sub"):
+        x, y = ceval(fn, i.ops[0], env, depth + 1), ceval(fn, i.ops[1], env, depth + 1)
+        if x is None or y is None:
+            return None
+        w = (1 << bits.get(i.d.get("ty"), 64)) - 1
+        if i.op == "and": return x & y
+        if i.op == "or": return x | y
+        if i.op == "xor": return x ^ y
+        if i.op == "lshr": return x >> y if y < 64 else 0
+        if i.op == "shl": return (x << y) & w if y < 64 else 0
+        if i.op == "udiv": return x // y if y else None
+        if i.op == "add": return (x + y) & w
+        if i.op == "sub": return (x - y) & w
+    if i.op == "icmp":
+        x, y = ceval(fn, i.ops[0], env, depth + 1), ceval(fn, i.ops[1], env, depth + 1)
+        if x is None or y is None:
+            return None
+        r = {"eq": x == y, "ne": x != y, "uge": x >= y, "ugt": x > y, "ule": x <= y, "ult": x < y}.get(i.d["pred"])
+        return None if r is None else int(r)
+    if i.op == "select":
+        c = ceval(fn, i.ops[0], env, depth + 1)
+        if c is None:
+            return None
+        return ceval(fn, i.ops[1] if c else i.ops[2], env, depth + 1)
+    return None
+
+
+def concrete_run(fn, env, targets, limit=200):
+    """follow the CFG from the entry with concrete branch outcomes (ceval); returns True if a block holding one of `targets` is entered
+    before a return, False if the function returns first, None if a branch condition is not determined by env"""
+    b = fn.blocks[0]
+    tb = {t.block.id for t in targets}
+    prev = None
+    for _ in range(limit):
+        if b.id in tb:
+            return True
+        t = b.term
+        if t.op == "ret" or t.op == "unreachable":
+            return False
+        if t.op == "br" and t.ops:
+            c = ceval(fn, t.ops[0], env)
+            if c is None:
+                return None
+            nb = b.succs[0 if c else 1]
+        elif t.op == "br":
+            nb = b.succs[0]
+        else:
+            return None
+        prev, b = b, nb
+    return None
